@@ -56,19 +56,43 @@ def publicBinaryTestN (m : PMode) (rq : List Rat) (ra : List α) (ncell nbin : N
 /-- what kind of region the observed catalog is bound to (D40): the CL and Brier tests bind the forecast's
     space-magnitude region to a catalog that has none (or one without magnitudes); the S test leaves the catalog alone -/
 inductive CatRegion where
-  | none | spatialOnly | full
+  /-- no region -/
+  | none
+  /-- a magnitude-less region with the forecast's cells in the forecast's order -/
+  | spatialOnly
+  /-- a magnitude-less region with other cells or another cell order (round 5) -/
+  | spatialOther
+  /-- the forecast's space-magnitude region (the same object, or one that bins identically) -/
+  | full
+  /-- a space-magnitude region of the catalog's own that does NOT bin like the forecast's (other edges / cells; round 5) -/
+  | fullOther
   deriving Repr, DecidableEq
 
+/-- binomial_evaluations.py:271-273, brier_evaluations.py:153-155: `if region is None or region.magnitudes is None:
+    observed_catalog.region = gridded_forecast.region` — every magnitude-less region is REPLACED by the forecast's (not
+    completed with magnitudes); a region that has magnitudes is left as it is, whatever it is -/
 def regionAfter (m : PMode) (r : CatRegion) : CatRegion :=
   match m, r with
-  | .CL, _ => .full
-  | .B, _ => .full
   | .S, r => r
+  | _, .fullOther => .fullOther
+  | _, _ => .full
 
 /-- which catalogs a test can grid at all: the S test needs a spatial region, CL / Brier take any (they bind one) -/
 def canGrid (m : PMode) (r : CatRegion) : Bool :=
   match m, r with
   | .S, .none => false
+  | _, _ => true
+
+/-- whether the observed array a test grids is the one of the FORECAST's region (cells in the forecast's order, the
+    forecast's magnitude edges) — the arrays `observedArrayB` describes. `false` = the catalog's own differing region is
+    used by the present code (genuine-defect candidates of round 5, notes/C16.md) -/
+def gridsOnForecastRegion (m : PMode) (r : CatRegion) : Bool :=
+  match m, r with
+  | .S, .spatialOnly => true
+  | .S, .full => true
+  | .S, .fullOther => true      -- the harness's `sm-othermags` state: same cells, other magnitude edges
+  | .S, _ => false
+  | _, .fullOther => false
   | _, _ => true
 
 end BinaryBrier
